@@ -147,6 +147,11 @@ func (g *GcsEmu) Handler(w http.ResponseWriter, r *http.Request) {
 
 	switch r.Method {
 	case "DELETE":
+		if bucket == "" {
+			// e.g. DELETE /storage/v1/b: there is nothing that could be meant (the file store would remove its root)
+			g.gapiError(w, http.StatusBadRequest, "missing bucket name")
+			return
+		}
 		g.handleGcsDelete(ctx, w, bucket, object, conds)
 	case "GET":
 		if object == "" {
@@ -217,6 +222,10 @@ func (g *GcsEmu) handleGcsCompose(ctx context.Context, baseUrl HttpBaseUrl, w ht
 	dst := composeObj{
 		filename: parts[0],
 		conds:    conds,
+	}
+	if req.Destination == nil {
+		// the destination resource is optional
+		req.Destination = &storage.Object{}
 	}
 
 	srcs := make([]composeObj, len(req.SourceObjects))
@@ -344,6 +353,7 @@ func (g *GcsEmu) handleGcsMediaRequest(ctx context.Context, baseUrl HttpBaseUrl,
 			gzipReader, err := gzip.NewReader(buf)
 			if err != nil {
 				g.gapiError(w, http.StatusInternalServerError, fmt.Sprintf("failed to gunzip from %s/%s: %s", bucket, filename, err))
+				return
 			}
 			if _, err := io.Copy(w, gzipReader); err != nil {
 				g.gapiError(w, http.StatusInternalServerError, fmt.Sprintf("failed to copy+gunzip from %s/%s: %s", bucket, filename, err))
@@ -419,6 +429,10 @@ func (g *GcsEmu) handleGcsUpdateMetadataRequest(ctx context.Context, baseUrl Htt
 		err = json.NewDecoder(r.Body).Decode(&obj)
 		if err != nil {
 			return fmtErrorfCode(http.StatusBadRequest, "failed to parse request: %w", err)
+		}
+		if obj == nil {
+			// the body was the JSON value null
+			return fmtErrorfCode(http.StatusBadRequest, "failed to parse request: not an object resource")
 		}
 		// A metadata patch cannot change what is derived from the object's content or version.
 		obj.Generation = intrinsic.Generation
